@@ -1,18 +1,21 @@
 (* C30 proofs: type preservation — every row a query returns conforms to the schema the model reports. *)
 From QV Require Import Sql.ExprInd C30.Model.
 
+Section All.
+  Variable mx : bool.
+
 (* ---------- values ---------- *)
-Lemma has_ty_null t : has_ty VNull t = true.
+Lemma has_ty_null t : has_ty mx VNull t = true.
 Proof. reflexivity. Qed.
 
-Lemma same_class_has_ty v a b : same_class a b = true -> has_ty v b = true -> has_ty v a = true.
-Proof. destruct v, a, b; cbn; congruence. Qed.
+Lemma same_class_has_ty v a b : same_class a b = true -> has_ty mx v b = true -> has_ty mx v a = true.
+Proof. generalize mx; intros [|]; destruct v, a, b; cbn; congruence. Qed.
 
-Lemma has_ty_not_err v t : has_ty v t = true -> v <> VErr.
-Proof. destruct v; cbn; congruence. Qed.
+Lemma has_ty_not_err v t : has_ty mx v t = true -> v <> VErr.
+Proof. generalize mx; intros [|]; destruct v, t; cbn; congruence. Qed.
 
 Lemma row_nth r : forall env i t,
-  row_has_types r env = true -> nth_error env i = Some t -> has_ty (nth i r VErr) t = true.
+  row_has_types mx r env = true -> nth_error env i = Some t -> has_ty mx (nth i r VErr) t = true.
 Proof.
   induction r as [|v r IH]; intros [|t0 env] i t H N; cbn in H; try discriminate.
   - destruct i; discriminate.
@@ -20,53 +23,65 @@ Proof.
     destruct i; cbn in N |- *; [inversion N; subst; exact Hv|eapply IH; eassumption].
 Qed.
 
-Lemma row_has_types_length r : forall env, row_has_types r env = true -> length r = length env.
+Lemma row_has_types_length r : forall env, row_has_types mx r env = true -> length r = length env.
 Proof.
   induction r as [|v r IH]; intros [|t env] H; cbn in H; try discriminate; [reflexivity|].
   apply andb_true_iff in H. cbn. f_equal. apply IH. tauto.
 Qed.
 
 Lemma row_has_types_app a : forall ea b eb,
-  row_has_types a ea = true -> row_has_types b eb = true -> row_has_types (a ++ b) (ea ++ eb) = true.
+  row_has_types mx a ea = true -> row_has_types mx b eb = true -> row_has_types mx (a ++ b) (ea ++ eb) = true.
 Proof.
   induction a as [|v a IH]; intros [|t ea] b eb Ha Hb; cbn in Ha; try discriminate; [exact Hb|].
   apply andb_true_iff in Ha. cbn. apply andb_true_iff. split; [tauto|apply IH; tauto].
 Qed.
 
-Lemma row_nulls env : row_has_types (nulls (length env)) env = true.
+Lemma row_nulls env : row_has_types mx (nulls (length env)) env = true.
 Proof. induction env; cbn; [reflexivity|exact IHenv]. Qed.
 
 Lemma compare_op_typed op a b ta tb :
-  has_ty a ta = true -> has_ty b tb = true -> comparable ta tb = true ->
-  has_ty (compare_op op a b) TBool = true.
-Proof. destruct a, b, ta, tb; cbn; try discriminate; reflexivity. Qed.
+  has_ty mx a ta = true -> has_ty mx b tb = true -> comparable ta tb = true ->
+  has_ty mx (compare_op op a b) TBool = true.
+Proof. generalize mx; intros [|]; destruct a, b, ta, tb; cbn; try discriminate; reflexivity. Qed.
 
-Lemma bool_cases v : has_ty v TBool = true -> v = VNull \/ exists b, v = VBool b.
+Lemma bool_cases v : has_ty mx v TBool = true -> v = VNull \/ exists b, v = VBool b.
 Proof. destruct v; cbn; try discriminate; eauto. Qed.
 
-Lemma lift2_typed f a b : has_ty a TBool = true -> has_ty b TBool = true -> has_ty (lift2 f a b) TBool = true.
+Lemma lift2_typed f a b : has_ty mx a TBool = true -> has_ty mx b TBool = true -> has_ty mx (lift2 f a b) TBool = true.
 Proof.
   intros Ha Hb. destruct (bool_cases a Ha) as [->|[x ->]], (bool_cases b Hb) as [->|[y ->]];
     unfold lift2; cbn; destruct (f _ _); reflexivity.
 Qed.
-Lemma lift1_typed f a : has_ty a TBool = true -> has_ty (lift1 f a) TBool = true.
+Lemma lift1_typed f a : has_ty mx a TBool = true -> has_ty mx (lift1 f a) TBool = true.
 Proof. intros Ha. destruct (bool_cases a Ha) as [->|[x ->]]; unfold lift1; cbn; destruct (f _); reflexivity. Qed.
-Lemma negate_if_typed n a : has_ty a TBool = true -> has_ty (negate_if n a) TBool = true.
+Lemma negate_if_typed n a : has_ty mx a TBool = true -> has_ty mx (negate_if n a) TBool = true.
 Proof. destruct n; cbn [negate_if]; [apply lift1_typed|auto]. Qed.
 
-Lemma like_op_typed f n a p : has_ty a TStr = true -> has_ty p TStr = true -> has_ty (like_op f n a p) TBool = true.
-Proof. destruct a, p; cbn; try discriminate; reflexivity. Qed.
+Lemma like_op_typed f n a p : has_ty mx a TStr = true -> has_ty mx p TStr = true -> has_ty mx (like_op f n a p) TBool = true.
+Proof. generalize mx; intros [|]; destruct a, p; cbn; try discriminate; reflexivity. Qed.
 
 Lemma arith_op_typed sa op a b ta tb t :
-  has_ty a ta = true -> has_ty b tb = true -> arith_ty sa ta tb = Some t ->
-  has_ty (arith_op op a b) t = true.
+  has_ty mx a ta = true -> has_ty mx b tb = true -> arith_ty sa ta tb = Some t ->
+  has_ty mx (arith_op op a b) t = true.
 Proof.
   unfold arith_ty, coerce_numeric.
-  destruct sa; destruct a, b, ta, tb; cbn; try discriminate; intros _ _ H; inversion H; subst; reflexivity.
+  generalize mx; intros [|]; destruct sa; destruct a, b, ta, tb; cbn; try discriminate; intros _ _ H; inversion H; subst; reflexivity.
 Qed.
 
-Lemma neg_op_typed a t : has_ty a t = true -> is_num t = true -> has_ty (neg_op a) t = true.
-Proof. destruct a, t; cbn; try discriminate; reflexivity. Qed.
+Lemma neg_op_typed a t : has_ty mx a t = true -> is_num t = true -> has_ty mx (neg_op a) t = true.
+Proof. generalize mx; intros [|]; destruct a, t; cbn; try discriminate; reflexivity. Qed.
+
+Lemma flows_has_ty v a b : flows mx a b = true -> has_ty mx v a = true -> has_ty mx v b = true.
+Proof. unfold flows. generalize mx; intros [|]; destruct v, a, b; cbn; congruence. Qed.
+
+Lemma map_opt_id_in {A} (l : list (option A)) : forall tys o,
+  map_opt (fun o => o) l = Some tys -> In o l -> exists x, o = Some x /\ In x tys.
+Proof.
+  induction l as [|y l IH]; intros tys o H Hin; cbn in H; [destruct Hin|].
+  destruct y as [y|]; [|discriminate]. destruct (map_opt (fun o => o) l) as [r|] eqn:E; [|discriminate].
+  inversion H; subst. destruct Hin as [<-|Hin]; [exists y; split; [reflexivity|left; reflexivity]|].
+  destruct (IH r o eq_refl Hin) as (x & Ex & Ix). exists x. split; [exact Ex|right; exact Ix].
+Qed.
 
 (* ---------- expressions ---------- *)
 Section ExprSound.
@@ -74,14 +89,14 @@ Section ExprSound.
   Variable S : sem.
   Variable env : list ty.
   Variable r : row.
-  Hypothesis Hrow : row_has_types r env = true.
+  Hypothesis Hrow : row_has_types mx r env = true.
 
-  Notation tyof := (tyof sa env).
+  Notation tyof := (tyof sa mx env).
   Notation ev := (eval S r).
 
   Ltac dt H x := destruct (tyof x) as [[]|] eqn:?; try discriminate H.
 
-  Theorem tyof_sound : forall e t, tyof e = Some t -> has_ty (ev e) t = true.
+  Theorem tyof_sound : forall e t, tyof e = Some t -> has_ty mx (ev e) t = true.
   Proof.
     induction e using expr_ind2; intros t Ht; cbn [Model.tyof] in Ht; cbn [eval].
     - eapply row_nth; eassumption.
@@ -103,8 +118,8 @@ Section ExprSound.
       match type of Ht with (if ?c then _ else _) = _ => destruct c eqn:All; inversion Ht; subst end.
       rewrite forallb_forall in All. rewrite Forall_forall in H.
       apply negate_if_typed.
-      assert (G : forall xs acc, (forall x, In x xs -> In x l) -> has_ty acc TBool = true ->
-                has_ty (fold_left (fun acc x => lift2 (s_or S) acc (compare_op CEq (ev e) (ev x))) xs acc) TBool = true).
+      assert (G : forall xs acc, (forall x, In x xs -> In x l) -> has_ty mx acc TBool = true ->
+                has_ty mx (fold_left (fun acc x => lift2 (s_or S) acc (compare_op CEq (ev e) (ev x))) xs acc) TBool = true).
       { induction xs as [|x xs IHl]; intros acc Hsub Hacc; cbn [fold_left]; [exact Hacc|].
         apply IHl; [intros; apply Hsub; right; assumption|].
         apply lift2_typed; [exact Hacc|].
@@ -124,22 +139,18 @@ Section ExprSound.
     - destruct (tyof e) as [ta|] eqn:Ea; [|discriminate]. destruct (is_num ta) eqn:N; inversion Ht; subst.
       apply neg_op_typed; auto.
     - (* CASE *)
-      assert (Ht' : exists tt, (forallb (fun cx => let '(c, x) := cx in
-                                match tyof c, tyof x with
-                                | Some TBool, Some tx => same_class tt tx
-                                | _, _ => false
-                                end) whens
-                     && match els with
-                        | Some e' => match tyof e' with Some te => same_class tt te | None => false end
-                        | None => true
-                        end) = true /\ tt = t).
-      { destruct whens as [|[c0 t0] ws0]; [discriminate|]. destruct (tyof t0) as [tt|]; [|discriminate]. exists tt.
-        match type of Ht with (if ?c then _ else _) = _ => destruct c; inversion Ht; subst; auto end. }
-      destruct Ht' as (tt & All & ->). clear Ht.
-      apply andb_true_iff in All. destruct All as [All Els].
-      rewrite forallb_forall in All. rewrite Forall_forall in H.
+      match type of Ht with match map_opt _ ?b with _ => _ end = _ => set (bts := b) in * end.
+      destruct (map_opt (fun o => o) bts) as [tys|] eqn:Hm; [|discriminate].
+      destruct (case_fold tys) as [tt|] eqn:Hf; [|discriminate].
+      match type of Ht with (if ?c then _ else _) = _ => destruct c eqn:All; inversion Ht; subst end.
+      apply andb_true_iff in All. destruct All as [Conds Fl].
+      rewrite forallb_forall in Conds, Fl. rewrite Forall_forall in H.
+      assert (Br : forall x, In (tyof x) bts -> (forall t', tyof x = Some t' -> has_ty mx (ev x) t' = true) ->
+                   has_ty mx (ev x) t = true).
+      { intros x Hin Px. destruct (map_opt_id_in _ _ _ Hm Hin) as (tx & Ex & Itx).
+        eapply flows_has_ty; [apply Fl; exact Itx|apply Px; exact Ex]. }
       assert (G : forall ws, (forall cx, In cx ws -> In cx whens) ->
-        has_ty ((fix go (ws : list (expr * expr)) : value :=
+        has_ty mx ((fix go (ws : list (expr * expr)) : value :=
            match ws with
            | [] => match els with Some e' => ev e' | None => VNull end
            | (c, t) :: ws' =>
@@ -151,16 +162,15 @@ Section ExprSound.
            end) ws) t = true).
       { induction ws as [|[c x] ws IHw]; intros Hsub.
         - destruct els as [e'|]; [|reflexivity]. cbn in H0.
-          destruct (tyof e') as [te|] eqn:Ee; [|discriminate].
-          eapply same_class_has_ty; [exact Els|]. apply H0. reflexivity.
+          apply Br; [unfold bts; apply in_or_app; right; left; reflexivity|exact H0].
         - assert (Hcx : In (c, x) whens) by (apply Hsub; left; reflexivity).
-          pose proof (All _ Hcx) as A. pose proof (H _ Hcx) as [Pc Px]. cbn [fst snd] in *.
+          pose proof (Conds _ Hcx) as A. pose proof (H _ Hcx) as [Pc Px]. cbn [fst snd] in *.
           destruct (tyof c) as [[]|] eqn:Ec; try discriminate.
-          destruct (tyof x) as [tx|] eqn:Ex; [|discriminate].
           specialize (Pc _ eq_refl).
           destruct (bool_cases _ Pc) as [->|[[] ->]].
           + apply IHw. intros; apply Hsub; right; assumption.
-          + eapply same_class_has_ty; [exact A|]. apply Px. reflexivity.
+          + apply Br; [|exact Px]. unfold bts. apply in_or_app. left.
+            apply in_map_iff. exists (c, x). split; [reflexivity|exact Hcx].
           + apply IHw. intros; apply Hsub; right; assumption. }
       apply G. auto.
     - (* COALESCE *)
@@ -169,7 +179,7 @@ Section ExprSound.
         match type of Ht with (if ?c then _ else _) = _ => destruct c eqn:C; inversion Ht; subst; exact C end. }
       clear Ht. rewrite forallb_forall in Ht'. rewrite Forall_forall in H.
       assert (G : forall xs, (forall x, In x xs -> In x l) ->
-        has_ty ((fix go (xs : list expr) : value :=
+        has_ty mx ((fix go (xs : list expr) : value :=
            match xs with
            | [] => VNull
            | x :: xs' => match ev x with VNull => go xs' | v => v end
@@ -177,7 +187,7 @@ Section ExprSound.
       { induction xs as [|x xs IHl]; intros Hsub; [reflexivity|].
         assert (Hx : In x l) by (apply Hsub; left; reflexivity).
         pose proof (Ht' _ Hx) as A. destruct (tyof x) as [tx|] eqn:Ex; [|discriminate].
-        assert (Hv : has_ty (ev x) t = true) by (eapply same_class_has_ty; [exact A|apply (H x Hx); exact Ex]).
+        assert (Hv : has_ty mx (ev x) t = true) by (eapply same_class_has_ty; [exact A|apply (H x Hx); exact Ex]).
         destruct (ev x) eqn:Ev; try exact Hv. apply IHl. intros; apply Hsub; right; assumption. }
       apply G. auto.
   Qed.
@@ -191,8 +201,8 @@ Proof.
 Qed.
 
 Lemma map_opt_row {A} (f : A -> option ty) (g : A -> value) l : forall ts,
-  map_opt f l = Some ts -> (forall x t, In x l -> f x = Some t -> has_ty (g x) t = true) ->
-  row_has_types (map g l) ts = true.
+  map_opt f l = Some ts -> (forall x t, In x l -> f x = Some t -> has_ty mx (g x) t = true) ->
+  row_has_types mx (map g l) ts = true.
 Proof.
   induction l as [|x l IH]; intros ts H G; cbn in H; [inversion H; reflexivity|].
   destruct (f x) as [t|] eqn:Ex; [|discriminate]. destruct (map_opt f l) as [ts'|]; [|discriminate].
@@ -201,7 +211,7 @@ Proof.
 Qed.
 
 Lemma all2_class_row r : forall e1 e2,
-  all2 same_class e1 e2 = true -> row_has_types r e2 = true -> row_has_types r e1 = true.
+  all2 same_class e1 e2 = true -> row_has_types mx r e2 = true -> row_has_types mx r e1 = true.
 Proof.
   induction r as [|v r IH]; intros [|t1 e1] [|t2 e2] A H; cbn in *; try discriminate; [reflexivity|].
   apply andb_true_iff in A. apply andb_true_iff in H. apply andb_true_iff.
@@ -235,8 +245,8 @@ Proof. intros H. rewrite <- (firstn_skipn n l). apply in_or_app. right; exact H.
 
 (* ---------- aggregates ---------- *)
 Lemma non_null_typed t args :
-  Forall (fun v => has_ty v t = true) args ->
-  Forall (fun v => has_ty v t = true /\ v <> VNull) (non_null args).
+  Forall (fun v => has_ty mx v t = true) args ->
+  Forall (fun v => has_ty mx v t = true /\ v <> VNull) (non_null args).
 Proof.
   intros H. unfold non_null. rewrite Forall_forall in *. intros v Hv. apply filter_In in Hv.
   destruct Hv as [Hi Hn]. split; [apply H; exact Hi|]. destruct v; cbn in Hn; congruence.
@@ -250,15 +260,15 @@ Proof.
   inversion H as [|? ? [q Hq] Hr]; subst. rewrite Hq. apply IH. exact Hr.
 Qed.
 
-Lemma num_to_q t v : is_num t = true -> has_ty v t = true -> v <> VNull -> exists q, to_q v = Some q.
-Proof. destruct v, t; cbn; try discriminate; try congruence; eauto. Qed.
+Lemma num_to_q t v : is_num t = true -> has_ty mx v t = true -> v <> VNull -> exists q, to_q v = Some q.
+Proof. generalize mx; intros [|]; destruct v, t; cbn; try discriminate; try congruence; eauto. Qed.
 
-Lemma cmp_values_some t x a : has_ty x t = true -> has_ty a t = true -> x <> VNull -> a <> VNull ->
+Lemma cmp_values_some t x a : has_ty mx x t = true -> has_ty mx a t = true -> x <> VNull -> a <> VNull ->
   exists c, cmp_values x a = Some c.
-Proof. destruct x, a, t; cbn; try discriminate; try congruence; eauto. Qed.
+Proof. generalize mx; intros [|]; destruct x, a, t; cbn; try discriminate; try congruence; eauto. Qed.
 
 Lemma best_value_typed want t vs :
-  Forall (fun v => has_ty v t = true /\ v <> VNull) vs -> has_ty (best_value want vs) t = true.
+  Forall (fun v => has_ty mx v t = true /\ v <> VNull) vs -> has_ty mx (best_value want vs) t = true.
 Proof.
   destruct vs as [|v vs]; [reflexivity|]. intros H. inversion H as [|? ? [Hv Nv] Hr]; subst. cbn [best_value].
   clear H. revert v Hv Nv. induction vs as [|x vs IH]; intros a Ha Na; cbn [fold_left]; [exact Ha|].
@@ -268,7 +278,7 @@ Proof.
 Qed.
 
 Lemma agg_apply_typed f t t' args n :
-  Forall (fun v => has_ty v t = true) args -> agg_ty f t = Some t' -> has_ty (agg_apply f args n) t' = true.
+  Forall (fun v => has_ty mx v t = true) args -> agg_ty f t = Some t' -> has_ty mx (agg_apply f args n) t' = true.
 Proof.
   intros H A. pose proof (non_null_typed t args H) as NN. unfold agg_apply.
   destruct f; cbn in A.
@@ -277,16 +287,20 @@ Proof.
   - (* SUM *)
     unfold sum_values. destruct (non_null args) as [|v vs] eqn:E; [reflexivity|].
     set (nn := v :: vs) in *.
-    destruct (is_int t) eqn:I.
-    + inversion A; subst.
-      assert (AllInt : forallb (fun v => match v with VInt _ => true | _ => false end) nn = true).
-      { apply forallb_forall. intros x Hx. rewrite Forall_forall in NN. destruct (NN x Hx) as [Hx' Nx].
-        destruct x, t; cbn in *; try discriminate; congruence. }
-      rewrite AllInt. reflexivity.
-    + destruct (is_flt t) eqn:Fq; inversion A; subst.
-      assert (NotInt : forallb (fun v => match v with VInt _ => true | _ => false end) nn = false).
-      { unfold nn. inversion NN as [|? ? [Hx Nx] _]; subst. destruct v, t; cbn in *; try discriminate; congruence. }
-      rewrite NotInt.
+    destruct (forallb (fun v => match v with VInt _ => true | _ => false end) nn) eqn:AllInt.
+    + (* an all-integer column: the sum is an integer, accepted at Int64 and (cast) at Float64 *)
+      destruct (is_int t) eqn:I; [inversion A; reflexivity|].
+      destruct (is_flt t) eqn:Fq; inversion A; subst.
+      unfold nn in NN. inversion NN as [|? ? [Hx Nx] _]; subst.
+      unfold nn in AllInt. cbn in AllInt. destruct v; try discriminate.
+      revert Hx. generalize mx. intros [|]; destruct t; cbn in *; try discriminate; reflexivity.
+    + assert (Fl : is_int t = false).
+      { destruct (is_int t) eqn:I; [|reflexivity]. exfalso.
+        assert (T : forallb (fun v => match v with VInt _ => true | _ => false end) nn = true).
+        { apply forallb_forall. intros x Hx. rewrite Forall_forall in NN. destruct (NN x Hx) as [Hx' Nx].
+          revert Hx' Nx. generalize mx. intros [|]; destruct x, t; cbn; try discriminate; congruence. }
+        congruence. }
+      rewrite Fl in A. destruct (is_flt t) eqn:Fq; inversion A; subst.
       destruct (fold_q_some nn 0%Q) as [q ->]; [|reflexivity].
       eapply Forall_impl; [|exact NN]. intros x [Hx Nx].
       apply (num_to_q t); [unfold is_num; rewrite Fq; apply orb_true_r|exact Hx|exact Nx].
@@ -306,9 +320,9 @@ Section QuerySound.
   Variable sa : bool.
   Variable dbs : list (list ty).
   Variable db : list rel.
-  Hypothesis Hdb : db_conforms db dbs.
+  Hypothesis Hdb : db_conforms mx db dbs.
 
-  Notation schema := (schema_g sa dbs).
+  Notation schema := (schema_g sa mx dbs).
   Notation qev := (qeval sql_qsem db).
 
   Lemma schema_width : forall q env, schema q = Some env -> length env = width q.
@@ -317,13 +331,13 @@ Section QuerySound.
     - destruct (nth_error dbs n) as [e|]; [|discriminate]. destruct (Nat.eqb (length e) w) eqn:E; inversion H; subst.
       apply Nat.eqb_eq; exact E.
     - discriminate.
-    - destruct (schema q) as [e|]; [|discriminate]. destruct (tyof sa e p) as [[]|]; inversion H; subst. apply IHq; reflexivity.
+    - destruct (schema q) as [e|]; [|discriminate]. destruct (tyof sa mx e p) as [[]|]; inversion H; subst. apply IHq; reflexivity.
     - destruct (schema q) as [e|]; [|discriminate]. eapply map_opt_length; exact H.
     - destruct (schema q1) as [el|]; [|discriminate]. destruct (schema q2) as [er|]; [|discriminate].
-      destruct (tyof sa (el ++ er) on) as [[]|]; try discriminate. inversion H; subst.
+      destruct (tyof sa mx (el ++ er) on) as [[]|]; try discriminate. inversion H; subst.
       destruct jt; try (rewrite app_length, (IHq1 _ eq_refl), (IHq2 _ eq_refl); reflexivity); apply IHq1; reflexivity.
     - destruct (schema q) as [e|]; [|discriminate].
-      destruct (map_opt (tyof sa e) keys) as [kt|] eqn:K; [|discriminate].
+      destruct (map_opt (tyof sa mx e) keys) as [kt|] eqn:K; [|discriminate].
       destruct (map_opt _ aggs) as [at_|] eqn:A; [|discriminate]. inversion H; subst.
       rewrite app_length, (map_opt_length _ _ _ K), (map_opt_length _ _ _ A). reflexivity.
     - apply IHq; exact H.
@@ -334,7 +348,7 @@ Section QuerySound.
   Qed.
 
   Theorem rows_conform_g : forall q env, schema q = Some env ->
-    forall r, In r (qev q) -> row_has_types r env = true.
+    forall r, In r (qev q) -> row_has_types mx r env = true.
   Proof.
     induction q; intros env H r Hin; cbn [schema_g] in H; cbn [qeval] in Hin.
     - (* table *)
@@ -342,7 +356,7 @@ Section QuerySound.
       eapply Hdb; eassumption.
     - discriminate.
     - (* filter *)
-      destruct (schema q) as [e|]; [|discriminate]. destruct (tyof sa e p) as [[]|]; inversion H; subst.
+      destruct (schema q) as [e|]; [|discriminate]. destruct (tyof sa mx e p) as [[]|]; inversion H; subst.
       apply filter_In in Hin. apply IHq; tauto.
     - (* project *)
       destruct (schema q) as [e|] eqn:E; [|discriminate].
@@ -351,18 +365,18 @@ Section QuerySound.
       eapply tyof_sound; eauto.
     - (* join *)
       destruct (schema q1) as [el|] eqn:E1; [|discriminate]. destruct (schema q2) as [er|] eqn:E2; [|discriminate].
-      destruct (tyof sa (el ++ er) on) as [[]|]; try discriminate. inversion H; subst. clear H.
+      destruct (tyof sa mx (el ++ er) on) as [[]|]; try discriminate. inversion H; subst. clear H.
       pose proof (schema_width _ _ E1) as W1. pose proof (schema_width _ _ E2) as W2.
-      assert (PL : forall a, In a (qev q1) -> row_has_types a el = true) by (intros; eapply IHq1; eauto).
-      assert (PR : forall b, In b (qev q2) -> row_has_types b er = true) by (intros; eapply IHq2; eauto).
-      assert (NL : row_has_types (nulls (width q1)) el = true) by (rewrite <- W1; apply row_nulls).
-      assert (NR : row_has_types (nulls (width q2)) er = true) by (rewrite <- W2; apply row_nulls).
+      assert (PL : forall a, In a (qev q1) -> row_has_types mx a el = true) by (intros; eapply IHq1; eauto).
+      assert (PR : forall b, In b (qev q2) -> row_has_types mx b er = true) by (intros; eapply IHq2; eauto).
+      assert (NL : row_has_types mx (nulls (width q1)) el = true) by (rewrite <- W1; apply row_nulls).
+      assert (NR : row_has_types mx (nulls (width q2)) er = true) by (rewrite <- W2; apply row_nulls).
       unfold join_rows, join_gen in Hin.
-      assert (Pair : forall a b, In a (qev q1) -> In b (qev q2) -> row_has_types (a ++ b) (el ++ er) = true)
+      assert (Pair : forall a b, In a (qev q1) -> In b (qev q2) -> row_has_types mx (a ++ b) (el ++ er) = true)
         by (intros; apply row_has_types_app; auto).
       assert (LeftPart : forall ok x, In x (flat_map (fun l => match filter (ok l) (qev q2) with
                             | [] => [l ++ nulls (width q2)] | ms => map (fun r => l ++ r) ms end) (qev q1)) ->
-                          row_has_types x (el ++ er) = true).
+                          row_has_types mx x (el ++ er) = true).
       { intros ok x Hx. apply in_flat_map in Hx. destruct Hx as (a & Ha & Hx).
         destruct (filter (ok a) (qev q2)) as [|m ms] eqn:F.
         - destruct Hx as [<-|[]]. apply row_has_types_app; auto.
@@ -383,14 +397,14 @@ Section QuerySound.
         destruct Hx as (b & <- & Hb). apply Pair; auto.
     - (* aggregate *)
       destruct (schema q) as [e|] eqn:E; [|discriminate].
-      destruct (map_opt (tyof sa e) keys) as [kt|] eqn:K; [|discriminate].
+      destruct (map_opt (tyof sa mx e) keys) as [kt|] eqn:K; [|discriminate].
       destruct (map_opt _ aggs) as [at_|] eqn:A; [|discriminate]. inversion H; subst. clear H.
-      assert (PQ : forall a, In a (qev q) -> row_has_types a e = true) by (intros; eapply IHq; eauto).
+      assert (PQ : forall a, In a (qev q) -> row_has_types mx a e = true) by (intros; eapply IHq; eauto).
       assert (Aggs : forall members, (forall m, In m members -> In m (qev q)) ->
-                row_has_types (map (fun fa => agg_apply (fst fa)
+                row_has_types mx (map (fun fa => agg_apply (fst fa)
                    (map (fun r => eval (q_esem sql_qsem) r (snd fa)) members) (length members)) aggs) at_ = true).
       { intros members Hm. eapply map_opt_row; [exact A|]. intros [f x] t _ Hx. cbn [fst snd] in *.
-        destruct (tyof sa e x) as [tx|] eqn:Ex; [|discriminate].
+        destruct (tyof sa mx e x) as [tx|] eqn:Ex; [|discriminate].
         eapply agg_apply_typed; [|exact Hx].
         apply Forall_forall. intros v Hv. apply in_map_iff in Hv. destruct Hv as (m & <- & Hm').
         eapply tyof_sound; eauto. }
@@ -407,8 +421,8 @@ Section QuerySound.
     - (* set operations *)
       destruct (schema q1) as [el|] eqn:E1; [|discriminate]. destruct (schema q2) as [er|] eqn:E2; [|discriminate].
       destruct (all2 same_class el er) eqn:C; inversion H; subst. clear H.
-      assert (PL : forall a, In a (qev q1) -> row_has_types a env = true) by (intros; eapply IHq1; eauto).
-      assert (PR : forall b, In b (qev q2) -> row_has_types b env = true)
+      assert (PL : forall a, In a (qev q1) -> row_has_types mx a env = true) by (intros; eapply IHq1; eauto).
+      assert (PR : forall b, In b (qev q2) -> row_has_types mx b env = true)
         by (intros; eapply all2_class_row; [exact C|eapply IHq2; eauto]).
       cbn [q_setop sql_qsem] in Hin. unfold sql_setop in Hin.
       destruct op, all.
@@ -425,22 +439,43 @@ Section QuerySound.
       destruct fetch; [apply in_firstn in Hin|]; apply in_skipn in Hin; eapply IHq; eauto.
   Qed.
 End QuerySound.
+End All.
 
-(* the pinned statement: rows of a well-typed query conform to the reported schema *)
+(* the pinned statement: rows of a well-typed query conform to the reported schema (a VInt is accepted at a
+   float type: the evaluator's Int -> Float64 cast in CASE) *)
 Theorem rows_conform : forall dbs db q env,
-  db_conforms db dbs -> schema_of dbs q = Some env ->
-  forall r, In r (qeval sql_qsem db q) -> row_has_types r env = true.
-Proof. intros dbs db q env Hdb H. apply (rows_conform_g true dbs db Hdb q env H). Qed.
+  db_conforms true db dbs -> schema_of dbs q = Some env ->
+  forall r, In r (qeval sql_qsem db q) -> row_has_types true r env = true.
+Proof. intros dbs db q env Hdb H. apply (rows_conform_g true true dbs db Hdb q env H). Qed.
+
+(* strict value typing, for statements whose CASEs keep to one class *)
+Theorem rows_conform_strict : forall dbs db q env,
+  db_conforms false db dbs -> schema_strict dbs q = Some env ->
+  forall r, In r (qeval sql_qsem db q) -> row_has_types false r env = true.
+Proof. intros dbs db q env Hdb H. apply (rows_conform_g false true dbs db Hdb q env H). Qed.
 
 Theorem schema_width_reported : forall dbs q env, schema_of dbs q = Some env -> length env = width q.
 Proof. intros dbs q env. apply schema_width. Qed.
 
-(* regression witness of the class i32-arith (closed by the fix: commit 4f06458): Int32 + Int32 is now planned
-   Int32 — what the kernel returns — and was planned Int64 before *)
+(* regression witness of the class i32-arith (closed by the fix: commit 4f06458) *)
 Example i32_arith_regression :
   let q := QProject (QTable 0 1) [EArith AAdd (ECol 0) (ECol 0)] in
   schema_of [[TI32]] q = Some [TI32] /\ schema_before_4f06458 [[TI32]] q = Some [TI64].
 Proof. split; reflexivity. Qed.
+
+(* regression witness of the class case-float64-widening (closed by the fix: commit b37af60):
+   CASE WHEN c0 > 0 THEN c0 ELSE 1.5 END over Int64 is planned Float64 (its first THEN is Int64); a Float32 THEN
+   with a Float64 branch likewise; integer widths keep the THEN's type; the strict discipline rejects the mix *)
+Example case_fold_regression :
+  let c := ECmp CGt (ECol 0) (ELit (VInt 0)) in
+  let q e := QProject (QTable 0 2) [e] in
+  schema_of [[TI64; TF32]] (q (ECase [(c, ECol 0)] (Some (ELit (VDbl (3 # 2)))))) = Some [TF64]
+  /\ schema_of [[TI64; TF32]] (q (ECase [(c, ECol 1)] (Some (ELit (VDbl (3 # 2)))))) = Some [TF64]
+  /\ schema_of [[TI64; TF32]] (q (ECase [(c, ELit (VDbl (3 # 2)))] (Some (ECol 0)))) = Some [TF64]
+  /\ schema_of [[TI32; TI64]] (q (ECase [(c, ECol 0)] (Some (ECol 1)))) = Some [TI32]
+  /\ schema_strict [[TI64; TF32]] (q (ECase [(c, ECol 0)] (Some (ELit (VDbl (3 # 2)))))) = None
+  /\ case_fold [TI64; TF64] = Some TF64 /\ case_fold [TI32; TF32; TF64] = Some TF64 /\ case_fold [TI32; TF32] = Some TI32.
+Proof. repeat split. Qed.
 
 (* coerce_numeric_types on every pair of the modelled numeric types, as the planner computes it now *)
 Example coerce_table :
@@ -460,22 +495,17 @@ Example union_mixed_witness :
   /\ known_union_mixed [[TI64; TI32]] (QSetOp SUnion false (QProject (QTable 0 2) [ECol 1]) (QProject (QTable 0 2) [ECol 0])) = false.
 Proof. repeat split. Qed.
 
-(* the class case-float64-widening: CASE WHEN .. THEN <Int64> ELSE <Float64> is reported Int64 and folds to Float64 *)
-Example case_widen_witness :
-  let e := ECase [(ECmp CGt (ECol 0) (ELit (VInt 0)), ECol 0)] (Some (ELit (VDbl (3 # 2)))) in
-  case_fold [TI64; TF64] = Some TF64 /\ known_case_widen [[TI64]] (QProject (QTable 0 1) [e]) = true
-  /\ known_case_widen [[TI64]] (QProject (QTable 0 1) [ECase [(ECmp CGt (ECol 0) (ELit (VInt 0)), ELit (VDbl (3 # 2)))] (Some (ECol 0))]) = false.
-Proof. repeat split. Qed.
-
-(* satisfiable hypotheses: a non-trivial well-typed query over a conforming database *)
+(* satisfiable hypotheses: a well-typed query with a mixed CASE over a conforming database, and its rows *)
 Example well_typed_example :
   let dbs := [[TI64; TStr]] in
-  let db := [[[VInt 1; VStr [97]]; [VNull; VNull]]] in
-  let q := QAgg (QFilter (QTable 0 2) (ECmp CGt (ECol 0) (ELit (VInt 0)))) [ECol 1] [(ASum, ECol 0); (ACountStar, ELit (VInt 1))] in
-  well_typed dbs db q /\ schema_of dbs q = Some [TStr; TI64; TI64].
+  let db := [[[VInt 1; VStr [97]]; [VNull; VNull]; [VInt (-2); VStr [98]]]] in
+  let e := ECase [(ECmp CGt (ECol 0) (ELit (VInt 0)), ECol 0)] (Some (ELit (VDbl (3 # 2)))) in
+  let q := QAgg (QProject (QTable 0 2) [e; ECol 1]) [ECol 1] [(ASum, ECol 0); (ACountStar, ELit (VInt 1))] in
+  well_typed dbs db q /\ schema_of dbs q = Some [TStr; TF64; TI64]
+  /\ forallb (fun r => row_has_types true r [TStr; TF64; TI64]) (qeval sql_qsem db q) = true.
 Proof.
-  cbn. split; [split|reflexivity].
+  cbn. split; [split|split; reflexivity].
   - intros n env Hn r Hr. destruct n as [|[|n]]; cbn in Hn; inversion Hn; subst.
-    cbn in Hr. destruct Hr as [<-|[<-|[]]]; reflexivity.
+    cbn in Hr. destruct Hr as [<-|[<-|[<-|[]]]]; reflexivity.
   - eexists; reflexivity.
 Qed.
